@@ -65,10 +65,13 @@ fn gen_unop(c: &mut Chooser, which: &str) -> UnOp {
             UnOp::Filter { m, r: c.choose(m as usize) as i64 }
         },
         "scan" => UnOp::Scan { seed: [0i64, 5, 100][c.choose(3)] },
+        // now and then a count at or beyond the width of a narrower integer type
+        "take" if c.chance(1, 10) => UnOp::Take(crate::pull::boundary_count(c)),
         "take" => UnOp::Take(1 + c.choose(4)),
         // take(0): greeted, never completes by itself, drops all data (only where the property
         // does not say n >= 1)
         "take0" => UnOp::Take(c.choose(5)),
+        _ if c.chance(1, 8) => UnOp::Skip(crate::pull::boundary_count(c)),
         _ => UnOp::Skip(c.choose(4)),
     }
 }
@@ -259,8 +262,8 @@ pub fn gen_case_full(c: &mut Chooser, op: &str, prop: &str, small: bool, deep: b
     };
     // deep configurations: larger counts for take / skip as well
     let topo = match topo {
-        Topo::Unary(UnOp::Take(n)) if deep && n > 0 => Topo::Unary(UnOp::Take(1 + c.choose(9))),
-        Topo::Unary(UnOp::Skip(_)) if deep => Topo::Unary(UnOp::Skip(c.choose(9))),
+        Topo::Unary(UnOp::Take(n)) if deep && n > 0 && n < 200 => Topo::Unary(UnOp::Take(1 + c.choose(9))),
+        Topo::Unary(UnOp::Skip(n)) if deep && n < 200 => Topo::Unary(UnOp::Skip(c.choose(9))),
         t => t,
     };
     if credit {
@@ -343,6 +346,28 @@ pub fn gen_case_full(c: &mut Chooser, op: &str, prop: &str, small: bool, deep: b
         pspecs.push(s);
         lens.push(c.choose(if small { 3 } else if deep { 10 } else { 5 }));
     }
+    if matches!(topo, Topo::Merge(_) | Topo::Combine(_)) {
+        // a source that reacts to being told to stop: inside that call a sibling greets (late
+        // merge members) or emits (listenable siblings) - e.g. a watcher that starts a fallback
+        // when it is disposed. (flatten's two upstreams are not generated this way: known finding
+        // K3, which has its own directed witnesses.)
+        let np = n_puppets;
+        if np >= 2
+            && !credit
+            && !indep
+            && matches!(prop, "C01" | "C02" | "C03" | "C04" | "C05" | "C17" | "C08" | "C10")
+            && c.chance(1, 4)
+        {
+            let i = c.choose(np);
+            let late: Vec<usize> = (0..np).filter(|j| *j != i && pspecs[*j].late).collect();
+            let listen: Vec<usize> = (0..np).filter(|j| *j != i && pspecs[*j].mode == Mode::Listen).collect();
+            if !late.is_empty() && c.chance(2, 3) {
+                pspecs[i].on_stop = Some((0, late[c.choose(late.len())]));
+            } else if !listen.is_empty() {
+                pspecs[i].on_stop = Some((1, listen[c.choose(listen.len())]));
+            }
+        }
+    }
     if let Topo::Flatten(n) | Topo::FlattenRepeat(n) = &topo {
         lens[0] = *n;
     }
@@ -359,6 +384,27 @@ pub fn gen_case_full(c: &mut Chooser, op: &str, prop: &str, small: bool, deep: b
                 j = (i + 1) % *n;
             }
             probe_specs[i].attach = Some((c.choose(3) as u8, 1 + c.choose(3), j));
+        }
+    }
+    if n_probes == 2
+        && matches!(prop, "C01" | "C02" | "C03" | "C04" | "C05" | "C17")
+        && !matches!(topo, Topo::Share(_) | Topo::ForEach)
+        && c.chance(1, 2)
+    {
+        // a "repeat"-style sink: from inside one of its handlers (greeting, k-th datum, end) it
+        // subscribes the same output value again (the second probe); half of the time it disposes
+        // its own subscription in that very handler first (dispose-and-resubscribe)
+        let trigger = c.choose(3) as u8;
+        let k = 1 + c.choose(4);
+        probe_specs[0].attach = Some((trigger, k, 1));
+        if trigger == 1 && c.chance(1, 2) {
+            let base = if c.chance(1, 2) { React::Pull } else { React::Nothing };
+            let mut policy = probe_specs[0].policy.clone();
+            while policy.len() <= k {
+                policy.push(base);
+            }
+            policy[k] = [React::Terminate, React::Error, React::PullTerminate][c.choose(3)];
+            probe_specs[0].policy = policy;
         }
     }
     if let (Topo::FromIter(_), "C15") = (&topo, prop) {
